@@ -82,7 +82,7 @@ theorem pushAll_some {x y : Coder} (ws : List Nat) (h : pushAll x ws = some y) :
     · cases h
 
 /-- the `get_compressed` guard on **any** backend: if the guard could be created, dropping it
-    restores the coder exactly (if it could not, the model keeps the old coder: D17 repair) -/
+    restores the coder exactly (if it could not, the model keeps the old coder: D21 repair) -/
 theorem getCompressed_guard_any {x y : Coder} (h : getCompressedThenDrop c x = some y) : y = x := by
   unfold getCompressedThenDrop at h
   split at h
